@@ -4,8 +4,8 @@ regenerate coq/gen/SearchK_gen.v from /repo (translator target search_k, fails c
   -> proofs over Model/Knn.v + the regenerated compute_search_k (Properties/C06.v)
   -> driver c06: (i) compute_search_k grid vs the regenerated model, (ii) merge_knn_results vs the model,
      (iii) seeded histories on the real HnswBackend / TieredEngine: direct oracle on every search + a stratified
-     sample compared with the model (exhaustive oracle) inside coqc, (iv) the directed reproduction of the
-     model's recent-write witness (C06_recent_write_refuted) on the real TieredEngine.
+     sample compared with the model (exhaustive oracle) inside coqc, (iv) the directed scenario that reproduced
+     the model's recent-write witness before repo commit b64dfda, kept as a regression probe (must return doc 9).
 """
 import json
 import os
@@ -14,7 +14,8 @@ import vlib
 THEOREMS = {"Properties.C06": [
     "C06_hot_heap_is_topk", "C06_merge_sound", "C06_cold_sound", "C06_sound", "C06_sound_timed",
     "C06_search_k_bounds", "C06_search_k_oversampling", "C06_recent_write_complete",
-    "C06_recent_write_complete_timed", "C06_recent_write_refuted", "C06_nonvacuous"]}
+    "C06_recent_write_complete_timed", "C06_api_history_no_stale_mirror", "C06_recent_write_complete_api",
+    "C06_recent_write_refuted", "C06_nonvacuous", "C06_history_nonvacuous"]}
 PINS = {"Properties.C06": {
     "_preamble": "From Coq Require Import List NArith Bool Arith Permutation. From Kyro Require Import gen.SearchK_gen Model.Knn Proofs.KnnProofs.",
     "C06_search_k_oversampling": "forall fx k live total : N, (0 < live)%N -> (1 <= k <= 10000)%N -> (search_k_fsite_exact k live total <= fx)%N -> let r := compute_search_k_with fx k live total in r = search_k_upper k total \\/ ((total <= live)%N /\\ r = k) \\/ ((N.max (k / 4) 2 <= r)%N /\\ (k * total <= (r - N.max (k / 4) 2) * live)%N)",
@@ -152,17 +153,15 @@ def run(ctx):
         f = other[0]
         ctx.violation({"property": "C06", "kind": "oracle", "class": f.get("class"), "why": f.get("why"), "case": f.get("case"),
                        "ops_prefix": f.get("ops_prefix"), "replay_cmd": "./check C06 --replay <this file>"})
-    if crowd:
-        known = ctx.classify_known(KNOWN_CROWD)
+    if crowd and not other:
+        # repaired in /repo (b64dfda: bulk load drops the mirrors of the ids it loads); the directed scenario stays
+        # in every run as a regression probe and this class is a plain VIOLATION (no known-findings lookup)
         f = ([x for x in crowd if x.get("directed")] or crowd)[0]
-        if known:
-            ctx.known_hit(known, "%d response(s) of this class (directed scenario reproduced: %s)" % (len(crowd), any(x.get("directed") for x in crowd)))
-        else:
-            ctx.violation({"property": "C06", "kind": "oracle", "class": KNOWN_CROWD,
-                           "why": f.get("why"), "case": f.get("case"), "ops_prefix": f.get("ops_prefix"),
-                           "model_witness": "Properties/C06.v C06_recent_write_refuted (guard survives_hot_cut fails)",
-                           "replay_cmd": "./check C06 --replay <this file>"})
-    if fails and (other or not ctx.classify_known(KNOWN_CROWD)):
+        ctx.violation({"property": "C06", "kind": "oracle", "class": KNOWN_CROWD,
+                       "why": f.get("why"), "case": f.get("case"), "ops_prefix": f.get("ops_prefix"),
+                       "model_witness": "Properties/C06.v C06_recent_write_refuted; C06_api_history_no_stale_mirror says API histories cannot reach such a state",
+                       "replay_cmd": "./check C06 --replay <this file>"})
+    if fails:
         return
 
     if coq_err:
@@ -203,8 +202,7 @@ def run(ctx):
     if not found:
         rc, o = run_driver(ctx, out + "_search", ["--n", str(n_hist * 4), "--cap", "0"], ctx.seed + 104729)
         try:
-            found = [f for f in json.load(open(os.path.join(out + "_search", "summary.json")))["oracle_failures"]
-                     if f.get("class") != CROWD_CLASS or not ctx.classify_known(KNOWN_CROWD)]
+            found = json.load(open(os.path.join(out + "_search", "summary.json")))["oracle_failures"]
         except Exception:
             pass
     if found:
